@@ -1,6 +1,8 @@
 import Cfdm.Lemmas.Describe
 import Cfdm.Lemmas.DescribeExec
 import Cfdm.Spec.Describe
+import Cfdm.Lemmas.EmitRef
+import Cfdm.Lemmas.DataStr
 /-
 C19 — inspection always works; creation commands rebuild the construct.
 Property theorems only.
@@ -8,8 +10,8 @@ Property theorems only.
 namespace Cfdm.Props.C19
 open Cfdm.Describe
 
-/-- **Inspection is total (patched code).**  With `construct_data_axes.get(cid, ())` in
-place of `construct_data_axes[cid]`, `repr`, `str` and `dump` of a field or domain perform
+/-- **Inspection is total** (the code at /repo HEAD, since repair fabc4b1).  With
+`construct_data_axes.get(cid, ())` in place of `construct_data_axes[cid]`, `repr`, `str` and `dump` of a field or domain perform
 only look-ups that succeed, in every state in which the axes that are named exist —
 including the partially built states of *ab initio* creation in which a metadata
 construct has no data axes yet. -/
@@ -30,7 +32,7 @@ example : AxesExist ⟨false, none, some [3], some [0], [(0, ⟨some 3, none⟩)
 def exSmall : MField := ⟨false, none, some [3], some [0], [(0, ⟨some 3, none⟩)],
     [⟨⟨.aux, 0⟩, ⟨some [3], none, none⟩, some [0]⟩, ⟨⟨.dim, 0⟩, ⟨some [3], none, none⟩, some [0]⟩], [], []⟩
 
-/-- **Inspection as the code is.**  The unpatched formatters are total exactly under the
+/-- **Inspection before repair fabc4b1.**  The formatters as they were are total exactly under the
 additional hypothesis that every construct has had its data axes set. -/
 theorem C19_describeOld_total_partial (f : MField) (h : AxesExist f) (hs : AllAxesSet f) :
     describeOld f ≠ none := by
@@ -44,7 +46,7 @@ example : AxesExist exSmall ∧ AllAxesSet exSmall := by
   rcases he with rfl | rfl <;>
     simp only [Option.some.injEq] at hl <;> subst hl <;> simpa [MField.axisKeys, exSmall] using ha
 
-/-- … and that hypothesis is necessary: the unpatched `dump` raises `KeyError` for
+/-- … and that hypothesis is necessary: the `dump` of before the repair raises `KeyError` for
 *every* state that holds a construct without data axes (field ancillaries of a
 `Domain` aside: a domain does not show them). -/
 theorem C19_describeOld_needs_axes (f : MField) (h : describeOld f ≠ none) :
@@ -55,7 +57,7 @@ theorem C19_describeOld_needs_axes (f : MField) (h : describeOld f ≠ none) :
 example : describeOld exSmall ≠ none := by decide
 
 /-- The full-strength statement `∀ f, AxesExist f → describeOld f ≠ none` is false for the
-code as it is: a field with one domain axis and an auxiliary coordinate inserted with
+code before the repair: a field with one domain axis and an auxiliary coordinate inserted with
 `f.set_construct(aux)` (no `axes=`).  `str(f)` and `f.dump()` raise `KeyError`. -/
 theorem C19_describeOld_counterexample :
     let f : MField := ⟨false, none, none, none, [(0, ⟨some 3, none⟩)],
@@ -75,9 +77,9 @@ theorem C19_describe_needs_data_axes (f : MField) (hd : f.isDomain = false) (h :
 example : describe ⟨false, none, none, some [9], [], [], [], []⟩ = none := by decide
 
 
-/-- `repr` of a domain as the code is: the unused `sorted(sizes)` of `Domain.__repr__` raises
+/-- `repr` of a domain before repair f9edab4: the unused `sorted(sizes)` of `Domain.__repr__` raised
 `TypeError` for a domain with two domain axes one of which has no size yet, a state in which
-the patched formatters (and the unpatched `str` and `dump`) all work. -/
+the formatters at /repo HEAD (and the earlier `str` and `dump`) all work. -/
 theorem C19_reprOld_counterexample :
     let f : MField := ⟨true, none, none, none, [(0, ⟨some 3, none⟩), (1, ⟨none, none⟩)], [], [], []⟩
     AxesExist f ∧ reprFOld f = none ∧ strF axesOld f = some () ∧ dumpF axesOld f = some () ∧
@@ -123,8 +125,8 @@ def exField : MField :=
     refs := [(1, ⟨some "rotated_pole", ["auxiliarycoordinate0", "dimensioncoordinate1"],
                   [("orog", some "domainancillary0"), ("a", none)]⟩)] }
 
-/-- **Creation commands rebuild the construct (patched code: `axes=` of a construct without
-data axes is emitted as `None`).**  For every well-formed field or domain `f` (the C02
+/-- **Creation commands rebuild the construct** (the code at /repo HEAD, since repair fabc4b1: `axes=`
+of a construct without data axes is emitted as `None`).  For every well-formed field or domain `f` (the C02
 invariant: distinct keys, every recorded axes tuple names existing sized axes whose sizes are
 the construct's shape, field data axes matching the data shape; constructs without axes are
 allowed), and for every order in which the `_constructs` dictionary happens to list the
@@ -173,9 +175,9 @@ axes; every netCDF name is kept -/
 example : (exec (creationCommands [.aux, .dim, .dan, .fan, .msr, .top, .con] exField)).map (·.cms.map (·.1)) =
     some [0, 1] := by decide
 
-/-- The full-strength statement fails for the code as it is: `Domain.creation_commands`
-calls `self.get_data_axes(key)` with no default, so a field holding a construct without data
-axes has no creation commands at all (`ValueError`), although the patched commands rebuild
+/-- The full-strength statement failed for the code before repair fabc4b1: `Domain.creation_commands`
+called `self.get_data_axes(key)` with no default, so a field holding a construct without data
+axes had no creation commands at all (`ValueError`), although the repaired commands rebuild
 it exactly. -/
 theorem C19_commandsOld_counterexample :
     let f : MField := ⟨false, none, none, none, [(0, ⟨some 3, none⟩)],
@@ -184,7 +186,7 @@ theorem C19_commandsOld_counterexample :
     wf f = true ∧ creationCommandsOld order f = none ∧ exec (creationCommands order f) = some f := by
   decide
 
-/-- What holds for the code as it is: under the additional hypothesis that every construct
+/-- What held for the code before the repair: under the additional hypothesis that every construct
 has had its axes set, the commands are emitted and rebuild the container. -/
 theorem C19_commandsOld_roundtrip_partial (order : List CType) (f : MField) (hord : order.Nodup)
     (hall : ∀ t, t ≠ CType.fan → t ∈ order) (h : wf f = true) (hs : AllAxesSet f) :
@@ -202,5 +204,324 @@ theorem C19_new_identifier_consecutive (k : Nat) : newId (List.range k) = k := n
 
 example : newId [0, 2, 5] = 3 := by decide
 example : newId [1, 2] = 3 := by decide
+
+/-! ## creation commands of the classes that are not containers
+
+`Cfdm.Emit` models `Data / Properties / PropertiesData / PropertiesDataBounds / CellMethod /
+CoordinateReference / DomainAxis.creation_commands` as an emitter into a small command language
+and `exec` as an interpreter for it in a namespace that holds the package under one prefix.
+`fix = false` is the code as it is, `fix = true` the code with the proposed repair that converts
+numpy-valued units / calendar / fill values and writes the fill value with `repr`
+(fixes/C19-data-attribute-spelling.patch); the hypotheses `dataOK`,
+`leafOK`, … are decidable and each conjunct is shown below to be needed. -/
+
+section Emit
+open Cfdm.Emit
+
+/-- **Data.**  For every Data object `d` meeting `dataOK` (mask as long as the values; no
+zero-sized dimension followed by another; finite unmasked values; evaluable spelling of units,
+calendar and fill value; a fill value for masked data), every name other than `mask` and every
+`namespace` keyword: `creation_commands` is emitted, the nested mask constructor and the outer
+one both carry the prefix, evaluating the text in a namespace that holds the package under that
+prefix succeeds and builds a Data object that is observably `d` (shape, data type, mask, unmasked
+values, units, calendar, fill value). -/
+theorem C19_emit_data_roundtrip (fix : Bool) (d : MData) (name : String) (ns : Option (List Char))
+    (hok : dataOK fix d = true) (hname : name ≠ "mask") :
+    ∃ e env', emitDataWith fix d (some name) ns = some e ∧ e.ctorsUse (nsPrefix ns) = true ∧
+      Emit.exec (nsPrefix ns) [Stmt.newData name e] = some env' ∧
+      (env' name).map Obj.obs = some (Obj.data d).obs := by
+  obtain ⟨e, h1, h2, h3⟩ := emitData_eval fix d (some name) ns hok (fun _ h => hname (by simpa using h))
+  refine ⟨e, Env.empty.set name (.data (rebuiltData d)), h1, h3, ?_, ?_⟩
+  · simp [Emit.exec, Emit.run, Emit.step, h2]
+  · simp [Obj.obs, rebuiltData_norm fix d hok]
+
+/-- masked float data with units, a fill value and a numpy-free spelling -/
+def exData : MData :=
+  ⟨[2, 2], [.num "1.5", .num "2.0", .nonfinite "nan", .num "4.0"], [false, false, true, false],
+   some (py (.str "K")), none, some (py (.num "-999.0")), ⟨"f", 8⟩⟩
+
+example : dataOK false exData = true := by decide
+
+/-- the prefix is not idle: the same text fails in a namespace that holds the package under
+another prefix (`namespace='xyz'` after `import cfdm`) -/
+theorem C19_emit_namespace_needed (e : DataExpr) (pkg : List Char) (h : e.ns ≠ pkg) : e.eval pkg = none := by
+  simp [DataExpr.eval, h]
+
+example : ((emitData exData (some "data") (some ['x', 'y'])).bind (·.eval defaultNs)) = none := by decide
+
+/-- **Each conjunct of `dataOK` is needed** (the code as it is):
+an unmasked NaN is written as the bare name `nan` (open finding `non-finite-data-value`);
+masked Boolean data have no default fill value, so `filled()` raises (open finding
+`masked-data-without-default-fill-value`); the list display of shape (0, 3) is `[]`, of shape
+(0,) (open finding `zero-size-leading-dimension`); numpy-valued units are written as
+`np.int32(1)` (open finding `numpy-valued-units`, repaired by `fix = true`); a string fill value
+is written without quotes (open finding `string-fill-value`, repaired by `fix = true`); and masked
+data cannot be called `mask`. -/
+theorem C19_emit_data_counterexamples :
+    -- NaN
+    (let d : MData := ⟨[2], [.num "1.0", .nonfinite "nan"], [false, false], none, none, none, ⟨"f", 8⟩⟩
+     ∃ e, emitData d (some "data") none = some e ∧ e.eval defaultNs = none) ∧
+    -- masked bool
+    (let d : MData := ⟨[2], [.num "True", .num "False"], [false, true], none, none, none, ⟨"b", 1⟩⟩
+     emitData d (some "data") none = none) ∧
+    -- shape (0, 3)
+    (let d : MData := ⟨[0, 3], [], [], none, none, none, ⟨"f", 8⟩⟩
+     ∃ e d', emitData d (some "data") none = some e ∧ e.eval defaultNs = some d' ∧ d'.norm ≠ d.norm) ∧
+    -- numpy-valued units: as the code is / repaired
+    (let d : MData := ⟨[1], [.num "1.0"], [false], some ⟨true, .num "1"⟩, none, none, ⟨"f", 8⟩⟩
+     (∃ e, emitData d (some "data") none = some e ∧ e.eval defaultNs = none) ∧ dataOK true d = true) ∧
+    -- string fill value: as the code is / repaired
+    (let d : MData := ⟨[1], [.str "a"], [false], none, none, some (py (.str "x")), ⟨"U", 1⟩⟩
+     (∃ e, emitData d (some "data") none = some e ∧ e.eval defaultNs = none) ∧ dataOK true d = true) ∧
+    -- name = 'mask'
+    emitData exData (some "mask") none = none := by
+  refine ⟨⟨_, rfl, by decide⟩, by decide, ⟨_, _, rfl, rfl, by decide⟩, ⟨⟨_, rfl, by decide⟩, by decide⟩,
+    ⟨⟨_, rfl, by decide⟩, by decide⟩, by decide⟩
+
+/-- **`Properties` / `PropertiesData` objects** (bounds, interior ring, count / index / list
+variable, field ancillary, cell measure, domain topology, cell connectivity, node count …).  For
+every stand-alone object meeting `leafOK` (distinct property names, evaluable property values,
+`dataOK` of the data as `get_data` shows them), every pair of distinct names and every
+`namespace`/`header`: the commands are emitted; every constructor call (also the nested Data and
+mask ones) carries the prefix; every name is bound before it is read; `exec` in a fresh namespace
+succeeds and binds `name` to an object observably equal to the original — same class, same
+properties in the same order (numpy values as numbers), same netCDF variable / dimension / sample
+dimension names, same data, same measure / cell / connectivity. -/
+theorem C19_emit_leaf_roundtrip (fix : Bool) (x : Leaf) (name dn : String) (ns : Option (List Char)) (header : Bool)
+    (hcls : x.cls.isLeaf = true) (hne : name ≠ dn) (hmk : dn ≠ "mask")
+    (hw : leafWF x = true) (hinh : x.inherited = []) (hok : leafOK fix x = true) :
+    ∃ stmts env', emitLeafWith fix x name dn ns header = some stmts ∧
+      stmts.all (fun s => s.ctorsUse (nsPrefix ns)) = true ∧ definedBeforeUse [] stmts = true ∧
+      Emit.exec (nsPrefix ns) stmts = some env' ∧ (env' name).map Obj.obs = some (Obj.leaf x).obs := by
+  obtain ⟨stmts, env', h1, h2, h3⟩ := run_emitLeaf fix x name dn ns header Env.empty (Or.inl hcls) hne hmk hok
+  refine ⟨stmts, env', h1, h3, exec_defined _ _ _ h2.run, h2.run, ?_⟩
+  rw [h2.at_name, newObj_withLeaf_leaf _ _ hcls]
+  simp [Obj.obs, rebuiltLeaf_obs fix x hw hinh hok]
+
+/-- a bounds object read from a dataset: netCDF variable and dimension names, a numpy-valued
+property, masked data -/
+def exBounds : Leaf :=
+  { cls := .Bounds, props := [("long_name", .atom (py (.str "cell bounds"))), ("valid_range", .arr [.num "0.0", .num "9.0"])],
+    ncvar := some "lat_bnds", ncdim := some "bounds2", sampleDim := none,
+    data := some ⟨[2, 2], [.num "1.5", .num "2.0", .num "2.0", .num "4.0"], [false, false, true, false],
+                 none, none, none, ⟨"f", 8⟩⟩,
+    attr := none, inherited := [] }
+
+example : leafWF exBounds = true ∧ leafOK false exBounds = true ∧ exBounds.cls.isLeaf = true := by decide
+
+/-- **Stand-alone is needed** (open finding `bounds-with-inherited-properties`): bounds taken from
+their parent (`coord.bounds`) show the parent's units on their data but `creation_commands`
+builds bounds without them; the text executes, the rebuilt object is not the original. -/
+theorem C19_emit_inherited_counterexample :
+    let x : Leaf := { exBounds with inherited := [("units", .atom (py (.str "degrees_north")))] }
+    leafWF x = true ∧ leafOK false x = true ∧
+    ∃ stmts env', emitLeaf x "c" "data" none true = some stmts ∧ Emit.exec defaultNs stmts = some env' ∧
+      (env' "c").map Obj.obs ≠ some (Obj.leaf x).obs := by
+  refine ⟨by decide, by decide, ?_⟩
+  obtain ⟨stmts, env', h1, h2, _⟩ := run_emitLeaf false
+    { exBounds with inherited := [("units", .atom (py (.str "degrees_north")))] } "c" "data" none true Env.empty
+    (Or.inl rfl) (by decide) (by decide) (by decide)
+  refine ⟨stmts, env', h1, h2.run, ?_⟩
+  rw [h2.at_name]
+  decide
+
+/-- **Coordinates and domain ancillaries** (`PropertiesDataBounds`, `mixin.Coordinate`).  For every
+object meeting `pobjWF` / `pobjOK` (the parent, its bounds as `get_bounds` shows them and its
+interior ring meet `leafOK`; the bounds data conform to the parent's, which `set_bounds` checks)
+and every keyword setting whose names do not clash (`kwOK`): the commands are emitted, every
+constructor call — the parent's, the bounds', the interior ring's, their Data and mask ones —
+carries the prefix, every name is bound before it is read, and `exec` binds `name` to an
+observably equal object: properties, netCDF names, data, geometry, climatology, node coordinate
+variable, bounds (as the rebuilt parent shows them, i.e. with its properties inherited) and
+interior ring. -/
+theorem C19_emit_pobj_roundtrip (fix : Bool) (x : PObj) (kw : KW)
+    (hkw : kwOK kw = true) (hw : pobjWF x = true) (hok : pobjOK fix x = true) :
+    ∃ stmts env', emitPObjWith fix x kw = some stmts ∧
+      stmts.all (fun s => s.ctorsUse (nsPrefix kw.ns)) = true ∧ definedBeforeUse [] stmts = true ∧
+      Emit.exec (nsPrefix kw.ns) stmts = some env' ∧ (env' kw.name).map Obj.obs = some (Obj.pobj x).obs := by
+  obtain ⟨stmts, env', h1, h2, h3, h4⟩ := run_emitPObj fix x kw Env.empty hkw hw hok
+  refine ⟨stmts, env', h1, h4, exec_defined _ _ _ h2, h2, ?_⟩
+  rw [h3]
+  simp [Obj.obs, rebuiltPObj_obs fix x hw hok]
+
+/-- a geometry auxiliary coordinate with units, bounds that rely on the parent's units, an interior
+ring, a node coordinate variable and netCDF names everywhere -/
+def exCoord : PObj :=
+  { base := { cls := .AuxiliaryCoordinate,
+              props := [("units", .atom (py (.str "degrees_north"))), ("standard_name", .atom (py (.str "latitude")))],
+              ncvar := some "lat", ncdim := none, sampleDim := none,
+              data := some ⟨[2], [.num "1.0", .num "2.0"], [false, false], none, none, none, ⟨"f", 8⟩⟩,
+              attr := none, inherited := [] },
+    geometry := some "polygon", climatology := false, nodeVar := some "y",
+    bounds := some { exBounds with props := [] },
+    ring := some { cls := .InteriorRing, props := [], ncvar := some "interior_ring", ncdim := some "part",
+                   sampleDim := none,
+                   data := some ⟨[2, 1], [.num "0", .num "1"], [false, false], none, none, none, ⟨"i", 4⟩⟩,
+                   attr := none, inherited := [] } }
+
+example : pobjWF exCoord = true ∧ pobjOK false exCoord = true := by decide
+example : kwOK {} = true ∧ kwOK { name := "x", dataName := "d", boundsName := "i", ns := some [] } = true := by decide
+
+/-- **The hypotheses on the keywords and on the bounds are needed**: with `name = bounds_name`
+(or `data_name`) `creation_commands` refuses (`ValueError`); bounds that do not conform to the
+data of their parent (attached before the data were set) are emitted but `set_bounds` refuses them
+when the text is executed. -/
+theorem C19_emit_pobj_counterexamples :
+    emitPObj exCoord { name := "b" } = none ∧ emitPObj exCoord { dataName := "c" } = none ∧
+    (let x : PObj := { exCoord with
+        base := { exCoord.base with data := some ⟨[3], [.num "1", .num "2", .num "3"], [false, false, false], none, none, none, ⟨"i", 8⟩⟩ } }
+     ∃ stmts, emitPObj x {} = some stmts ∧ Emit.exec defaultNs stmts = none) := by
+  refine ⟨by decide, by decide, ?_⟩
+  refine ⟨_, rfl, ?_⟩
+  decide
+
+/-- **Domain axes**: unconditional and exact. -/
+theorem C19_emit_axis_roundtrip (a : MAxis) (name : String) (ns : Option (List Char)) (header : Bool) :
+    (emitAxis a name ns header).all (fun s => s.ctorsUse (nsPrefix ns)) = true ∧
+    definedBeforeUse [] (emitAxis a name ns header) = true ∧
+    ∃ env', Emit.exec (nsPrefix ns) (emitAxis a name ns header) = some env' ∧ env' name = some (.axis a) := by
+  have h := run_emitAxis a name ns header Env.empty
+  exact ⟨emitAxis_ctors a name ns header, exec_defined _ _ _ h, _, h, Env.set_same _ _ _⟩
+
+example : ∃ env', Emit.exec [] (emitAxis ⟨some 5, some "lat", true⟩ "c" (some []) false) = some env' ∧
+    env' "c" = some (.axis ⟨some 5, some "lat", true⟩) :=
+  (C19_emit_axis_roundtrip ⟨some 5, some "lat", true⟩ "c" (some []) false).2.2
+
+/-- **Cell methods**: for every cell method with distinct qualifier names whose interval Data meet
+`dataOK`: emitted, prefixed (also the Data constructors inside `set_qualifier('interval', [...])`),
+names bound before use, and `exec` rebuilds the method, the axes and the qualifiers **in their
+order**. -/
+theorem C19_emit_cm_roundtrip (fix : Bool) (m : MCM) (name : String) (ns : Option (List Char)) (header : Bool)
+    (hok : cmOK fix m = true) :
+    ∃ stmts env', emitCMWith fix m name ns header = some stmts ∧
+      stmts.all (fun s => s.ctorsUse (nsPrefix ns)) = true ∧ definedBeforeUse [] stmts = true ∧
+      Emit.exec (nsPrefix ns) stmts = some env' ∧ (env' name).map Obj.obs = some (Obj.cm m).obs := by
+  obtain ⟨stmts, env', h1, h2, h3, h4⟩ := run_emitCM fix m name ns header Env.empty hok
+  refine ⟨stmts, env', h1, h4, exec_defined _ _ _ h2, h2, ?_⟩
+  rw [h3]
+  simp [Obj.obs, rebuiltCM_obs fix m hok]
+
+def exCM : MCM :=
+  ⟨some "mean", some ["domainaxis1", "area"],
+   [("within", .str "years"), ("interval", .interval [⟨[], [.num "1"], [false], some (py (.str "hour")), none, none, ⟨"i", 8⟩⟩]),
+    ("comment", .str "a comment")]⟩
+
+example : cmOK false exCM = true := by decide
+
+/-- **Coordinate references**: for every coordinate reference with distinct parameter names and
+terms whose parameter values are spelt evaluably (numbers, strings, lists, numpy scalars and
+arrays; Data-valued parameters meeting `dataOK`): emitted, prefixed, names bound before use, and
+`exec` rebuilds the netCDF variable name, the coordinates, the datum and conversion parameters in
+their order and the domain ancillaries. -/
+theorem C19_emit_ref_roundtrip (fix : Bool) (r : MRef) (name : String) (ns : Option (List Char)) (header : Bool)
+    (hok : refOK fix r = true) :
+    ∃ stmts env', emitRefWith fix r name ns header = some stmts ∧
+      stmts.all (fun s => s.ctorsUse (nsPrefix ns)) = true ∧ definedBeforeUse [] stmts = true ∧
+      Emit.exec (nsPrefix ns) stmts = some env' ∧ (env' name).map Obj.obs = some (Obj.ref r).obs := by
+  obtain ⟨stmts, env', h1, h2, h3, h4⟩ := run_emitRef fix r name ns header Env.empty hok
+  refine ⟨stmts, env', h1, h4, exec_defined _ _ _ h2, h2, ?_⟩
+  rw [h3]
+  simp [Obj.obs, rebuiltRef_obs fix r hok]
+
+def exRef : MRef :=
+  ⟨some "rotated_pole", ["auxiliarycoordinate0", "dimensioncoordinate1"],
+   [("earth_radius", .data ⟨[], [.num "6371007"], [false], some (py (.str "m")), none, none, ⟨"i", 8⟩⟩)],
+   [("grid_mapping_name", .val (.atom (py (.str "rotated_latitude_longitude")))),
+    ("standard_parallel", .val (.arr [.num "25.0", .num "30.0"])), ("north_pole", .val (.atom ⟨true, .num "38.0"⟩))],
+   [("orog", some "domainancillary0"), ("a", none)]⟩
+
+example : refOK false exRef = true := by decide
+
+/-- the name-space rule of every `creation_commands`: applying it twice changes nothing (the
+classes hand the processed prefix to their parent class, which processes it again), and the
+result is empty or ends with a dot. -/
+theorem C19_namespace_prefix (o : Option (List Char)) :
+    nsPrefix (some (nsPrefix o)) = nsPrefix o ∧ (nsPrefix o = [] ∨ (nsPrefix o).getLast? = some '.') :=
+  ⟨nsPrefix_idem o, nsPrefix_shape o⟩
+
+example : nsPrefix none = "cfdm.".toList ∧ nsPrefix (some "xyz".toList) = "xyz.".toList ∧
+    nsPrefix (some "xyz.".toList) = "xyz.".toList ∧ nsPrefix (some []) = [] := by decide
+
+end Emit
+
+/-! ## the display path of data -/
+
+section DataStr
+open Cfdm.DataStr
+
+/-- **`str` / `repr` of Data are total.**  For every shape and every list of elements — size 0,
+1, 2, 3 along the last axis or not, more; masked or not; reference-time units or not; any units
+(also not a string) and calendar — `Data.__str__` and `Data.__repr__` return a string, provided the
+date-time conversions raise nothing but the exceptions the code catches: `first_element` on
+size 0 is caught, the second element is only asked for when there are exactly three, and the last
+element exists whenever there is a first. -/
+theorem C19_dataStr_total (cv : Conv) (h : cv.Caught) (d : DData) :
+    dataStr cv d ≠ none ∧ dataRepr cv d ≠ none := by
+  obtain ⟨s, hs⟩ := dataStr_some cv h d
+  simp [dataRepr, hs]
+
+example : dataStr ⟨fun t => .ok t, fun a b => .ok a b⟩ ⟨[0, 3], [], some (.str "m" false), none⟩ = some " m" := by
+  decide
+
+/-- the hypothesis is needed: an exception of the conversion that is not caught propagates (this
+was finding 591f44a: `AttributeError` for a NaN) -/
+example : dataStr ⟨fun _ => .uncaught, fun _ _ => .caught⟩
+    ⟨[1], [.val "nan"], some (.str "days since 2001-02-03" true), none⟩ = none := by decide
+
+/-- **Layout.**  For data that are not reference times the text is, for every shape and every
+non-empty list of elements of that size: the brackets, every element when there are at most two
+or exactly three along the last axis, otherwise the first and the last around `...`, then the
+units; a masked element is shown as `--`. -/
+theorem C19_dataStr_layout (cv : Conv) (d : DData) (hne : d.elems ≠ []) (hwf : d.elems.length = prod d.shape)
+    (hr : d.isRefTime = false) :
+    dataStr cv d = some (specStr d (fun i => fmt (d.elems.getD i .masked))) :=
+  dataStr_plain cv d hne hwf hr
+
+example : dataStr ⟨fun t => .ok t, fun a b => .ok a b⟩
+    ⟨[1, 3], [.val "1.0", .masked, .val "3.0"], some (.str "K" false), none⟩ = some "[[1.0, --, 3.0]] K" := by decide
+example : dataStr ⟨fun t => .ok t, fun a b => .ok a b⟩
+    ⟨[3, 1], [.val "1.0", .masked, .val "3.0"], none, none⟩ = some "[[1.0, ..., 3.0]]" := by decide
+/-- reference times: first and last are converted together, so one value that cannot be converted
+blanks both; a masked one is shown as `--` -/
+example : dataStr ⟨fun t => .ok ("D" ++ t), fun _ _ => .caught⟩
+    ⟨[3], [.val "1e20", .val "2", .val "3"], some (.str "days since 2001-02-03" true), some "noleap"⟩ =
+    some "[??, D2, ??] noleap" := by decide
+example : dataStr ⟨fun t => .ok ("D" ++ t), fun a b => .ok ("D" ++ a) ("D" ++ b)⟩
+    ⟨[2], [.masked, .val "2"], some (.str "days since 2001-02-03" true), none⟩ = some "[--, D2]" := by decide
+
+/-- **`str` / `repr` of the constructs** with the proposed repair
+(fixes/C19-non-string-units.patch) are total: for every combination of units / calendar of the
+construct and of its bounds, string or not. -/
+theorem C19_constructStr_total (identity : String) (dims : Option (List Nat)) (u c bu bc : Option Units) :
+    pdbStr identity dims u c bu bc ≠ none ∧ pdStr identity dims u c ≠ none := by
+  obtain ⟨s, hs⟩ := pdbStr_some identity dims u c bu bc
+  obtain ⟨t, ht⟩ := pdStr_some identity dims u c
+  simp [hs, ht]
+
+/-- **As the code is**: `"since" in units` raises `TypeError` for units that are not a string
+(a numeric `units` attribute read from a dataset) — open finding `non-string-units`. -/
+theorem C19_constructStrOld_counterexample :
+    pdbStrOld "latitude" (some [5]) (some (.other "1")) none none none = none ∧
+    pdbStr "latitude" (some [5]) (some (.other "1")) none none none = some "latitude(5) 1" ∧
+    pdStrOld "x" none (some (.str "days since 2000-01-01" true)) (some (.other "5")) = none := by decide
+
+/-- … and total exactly when units and calendar (the construct's and its bounds') are strings. -/
+theorem C19_constructStrOld_total_partial (identity : String) (dims : Option (List Nat)) (u c bu bc : Option Units)
+    (hu : optIsStr u = true) (hc : optIsStr c = true) (hbu : optIsStr bu = true) (hbc : optIsStr bc = true) :
+    pdbStrOld identity dims u c bu bc ≠ none := by
+  obtain ⟨s, hs⟩ := pdbStrOld_some identity dims u c bu bc hu hc hbu hbc
+  simp [hs]
+
+example : optIsStr (some (.str "m" false)) = true ∧ optIsStr none = true := by decide
+
+/-- the `Data(…)` line of `dump`: whatever axis names are passed (fewer or more than the data
+have dimensions), one label per dimension is printed. -/
+theorem C19_dump_dims (names : Option (List String)) (shape : List Nat) :
+    (dumpDims names shape).length = shape.length := dumpDims_length names shape
+
+example : dumpDims (some ["time(1)"]) [1, 3, 2] = ["time(1)", "3", "2"] := by decide
+example : dumpDims (some ["a", "b", "c"]) [4] = ["a"] := by decide
+
+end DataStr
 
 end Cfdm.Props.C19
